@@ -2326,13 +2326,21 @@ def bestof_min_by_key(ctx, path, n, rule, need, ob, key, k5v, red, table, ret, e
         X = calls[0]
         ok_rank = ok_rank and X[2][0] is hands[0]
         ok_keys = ok_keys and kx is X
-        # presence = the candidate's value is non-zero
-        for xv in (0, 1, 7462):
-            got = cval(evaluate(pdb, c, {"$fn:" + k5v: (lambda a, xv=xv: C(xv, "u16")), **base_env}))
-            ok_pres = ok_pres and bool(got) == (xv != 0)
-        got = [cval(evaluate(pdb, x, base_env)) for x in arr_of(hands[0])]
+        # presence = the candidate's value is non-zero, for every value: the condition may only compare that value, and
+        # only with 0
+        xa_ = atom("$x", "u16")
+        c2_ = substitute(c, lambda nd: xa_ if nd is X else None)
+        pconsts, pwhy = value_use([c2_], {"$x"})
+        if pwhy is not None or set(atoms_of(c2_)) - {"$x"} or any(cl.startswith("fn:") for cl in calls_of(c2_)):
+            ok_pres = False
+        else:
+            for xv in value_reps(pconsts):
+                got = cval(evaluate(pdb, c2_, {"$x": xv}))
+                ok_pres = ok_pres and bool(got) == (xv != 0)
+        # the candidate is made of the slots its row names: the slot atoms themselves
         if k_ < len(table):
-            ok_rows = ok_rows and got == [100 + r for r in table[k_]]
+            cs_ = arr_of(hands[0])
+            ok_rows = ok_rows and cs_ is not None and len(cs_) == 5 and all(cs_[j] is atom("s%d" % table[k_][j], "u32") for j in range(5))
     ob("iterates-table", short(path), ok_rows, "the pipeline does not visit one candidate per row of %s, built from the slots that row names" % perm_table_name(path).split("cards::")[-1], where)
     ob("candidate-from-row", short(path), ok_rows, "a ranked candidate is not made of the receiver's slots named by its table row", where)
     ob("ranks-one-candidate", short(path), ok_rank, "an item does not pair a candidate with the ranking of that same candidate", where)
